@@ -124,10 +124,7 @@ func init() {
 		vals := []string{"0", "1", "2", "3", "a", "-1"}
 		bounds := []string{"-1", "0", "1", "2", "3", fmt.Sprint(math.MaxInt64), fmt.Sprint(math.MinInt64)}
 		two, one := 2, 1
-		mvs := []*int{nil}
-		if r.Tier == "thorough" {
-			mvs = []*int{nil, &one, &two}
-		}
+		mvs := []*int{nil, &one, &two}
 		atoms := c12Atoms("k", vals, bounds, []*int{nil})
 		atomsMV := c12Atoms("k", []string{"0", "1", "a"}, []string{"0", "2"}, mvs)
 		r.Rule = "atoms = {In,NotIn} x value sets of size 1-2 over {0,1,2,3,a,-1}, Exists, DoesNotExist, {Gt,Lt,Gte,Lte} x {-1,0,1,2,3,MaxInt64,MinInt64}; " +
@@ -226,9 +223,9 @@ func init() {
 			}
 		})
 		// ---- clause 4: Compatible / Intersects, one atom (or none) per key per side
-		cvals, cbounds := []string{"0", "1", "a"}, []string{"0", "1"}
+		cvals, cbounds := []string{"0", "1", "2", "a"}, []string{"0", "1", "2"}
 		if r.Tier == "thorough" {
-			cvals, cbounds = []string{"0", "1", "2", "a"}, []string{"0", "1", "2"}
+			cvals, cbounds = []string{"0", "1", "2", "3", "a"}, []string{"-1", "0", "1", "2"}
 		}
 		wk := append([]atom{{}}, c12Atoms(corev1.LabelArchStable, cvals, cbounds, []*int{nil})...)
 		ck := append([]atom{{}}, c12Atoms("team", cvals, cbounds, []*int{nil})...)
